@@ -151,9 +151,14 @@ def judge(case):
         if kind == 'function':
             scope = mk_scope(case['scope'])
             try:
-                fn = G.Function(return_type=mk_type(case['ret']), name=case['name'], params=mk_params(case['params']),
-                                prefix=_prefix(G, case['prefix']), cav=case['cav'], override=case['override'],
-                                initialization=case['init'], contents=case['contents'], scope=scope)
+                if case.get('positional'):
+                    # REPRESENTATION: all arguments given positionally, in the documented field order
+                    fn = G.Function(mk_type(case['ret']), case['name'], mk_params(case['params']), _prefix(G, case['prefix']),
+                                    case['cav'], case['override'], case['init'], case['contents'], scope)
+                else:
+                    fn = G.Function(return_type=mk_type(case['ret']), name=case['name'], params=mk_params(case['params']),
+                                    prefix=_prefix(G, case['prefix']), cav=case['cav'], override=case['override'],
+                                    initialization=case['init'], contents=case['contents'], scope=scope)
             except G.CppGenError:
                 # rejected: fine, but the well-formed core must never be rejected
                 if not (case['prefix'] == 'VIRTUAL' and scope is None) and not \
@@ -186,9 +191,13 @@ def judge(case):
         elif kind == 'constructor':
             scope = mk_scope(case['scope'])
             try:
-                ctor = G.Constructor(scope, explicit=case['explicit'], params=mk_params(case['params']),
-                                     initialization=case['init'], member_initlist=list(case['mil']),
-                                     contents=case['contents'])
+                if case.get('positional'):
+                    ctor = G.Constructor(scope, case['explicit'], mk_params(case['params']), case['init'], list(case['mil']),
+                                         case['contents'])
+                else:
+                    ctor = G.Constructor(scope, explicit=case['explicit'], params=mk_params(case['params']),
+                                         initialization=case['init'], member_initlist=list(case['mil']),
+                                         contents=case['contents'])
             except G.CppGenError:
                 if not (case['init'] and case['mil']) and scope is not None:
                     bad('constructor-rejected', 'CppGenError for an acceptable description')
@@ -219,8 +228,11 @@ def judge(case):
         elif kind == 'destructor':
             scope = mk_scope(case['scope'])
             try:
-                dtor = G.Destructor(scope, override=case['override'], initialization=case['init'],
-                                    contents=case['contents'])
+                if case.get('positional'):
+                    dtor = G.Destructor(scope, case['override'], case['init'], case['contents'])
+                else:
+                    dtor = G.Destructor(scope, override=case['override'], initialization=case['init'],
+                                        contents=case['contents'])
             except G.CppGenError:
                 if scope is not None:
                     bad('destructor-rejected', '')
@@ -487,6 +499,9 @@ def function_cases():
             CONTENTS, (None, 'struct', 'class')):
         yield {'kind': 'function', 'ret': ret, 'name': 'fn', 'params': params, 'prefix': prefix, 'cav': cav,
                'override': override, 'init': init, 'contents': contents, 'scope': scope}
+        if len(params) <= 1 and ret == RET_TYPES[0]:
+            yield {'kind': 'function', 'ret': ret, 'name': 'fn', 'params': params, 'prefix': prefix, 'cav': cav,
+                   'override': override, 'init': init, 'contents': contents, 'scope': scope, 'positional': True}
 
 
 def other_cases():
@@ -495,9 +510,13 @@ def other_cases():
             (False, True), list(param_lists()), ('', 'default', 'delete'), mils, CONTENTS, ('struct', 'class', None)):
         yield {'kind': 'constructor', 'explicit': explicit, 'params': params, 'init': init, 'mil': mil,
                'contents': contents, 'scope': scope}
+        if len(params) <= 1:
+            yield {'kind': 'constructor', 'explicit': explicit, 'params': params, 'init': init, 'mil': mil,
+                   'contents': contents, 'scope': scope, 'positional': True}
     for override, init, contents, scope in itertools.product((False, True), ('', 'default', 'delete'), CONTENTS,
                                                              ('struct', 'class', None)):
         yield {'kind': 'destructor', 'override': override, 'init': init, 'contents': contents, 'scope': scope}
+        yield {'kind': 'destructor', 'override': override, 'init': init, 'contents': contents, 'scope': scope, 'positional': True}
     bodies = [None, [], ['int x;'], ['struct Q', '{', '};', '', '    indented();'], ['', 'int after_blank;'], ['']]
     for n in range(0, 4):
         for ids in itertools.product(['A', 'b_1', 'C9'], repeat=n):
